@@ -8,6 +8,7 @@ META = {
  "C12": dict(level="proof", explanation="one-step postconditions of the real CSR bank against a layout spec function, all inputs and register states"),
  "C06": dict(level="proof", explanation="per-cycle routing/ownership/response postconditions on the real Wishbone arbiter, decoder, shared interconnect and crossbar with real SoCRegion decoders"),
  "C07": dict(level="proof", explanation="symbolic-address (tracked byte) contracts on the real wishbone.SRAM and transaction-translation contracts on the real converters, remapper and CSR bridge"),
+ "C16": dict(level="proof", explanation="layout/round-trip postconditions of Header, packet-level ghost contracts on Packetizer/Depacketizer/PacketFIFO, atomicity invariants on Arbiter/Dispatcher"),
  "C04": dict(level="proof", explanation="hold-until-ready two-cycle postcondition and bounded-response (progress) obligations from every invariant state of the real stream/packet modules"),
 }
 
@@ -40,5 +41,7 @@ CLAIMS["C06"] = _hw("DESIGN.md §3 C06", "Mutual exclusion, ownership until the 
                     "Known finding: Decoder(register=True) returns stale-select read data when a slave acknowledges in the first cycle.")
 CLAIMS["C07"] = _hw("DESIGN.md §3 C07", "wishbone.SRAM (classic cycles; read-only; init) by the symbolic-address method: a rigid arbitrary byte is tracked by a ghost and every acknowledged read of it returns the ghost, writes change it iff selected, one ack per cycle; Down/UpConverter, Converter, Remapper and Wishbone2CSR by transaction-translation contracts (exact sub-access address/data/select mapping, skip of unselected lanes, read-data assembly, exactly one ack / one CSR access).",
                     "Cache, SRAM burst cycles and converter burst tags are not covered (tier 2); meta-lemmas M3/M5 are paper arguments.")
+CLAIMS["C16"] = _hw("DESIGN.md §3 C16", "Header.encode/decode against a bit-level layout spec and as inverses (all field values); Packetizer and Depacketizer (aligned headers) emit/consume exactly the prescribed header words then pass the payload through; PacketFIFO releases only complete packets with that packet's parameters; Arbiter and Dispatcher never change grant/destination inside a started packet (selector changes mid-packet are free inputs).",
+                    "Unaligned (residue) packetizer/depacketizer modes are not covered.")
 _NYB = "check not built yet in this session (see DESIGN.md build order); will be claimed when its contracts are committed"
 NOT_APPLICABLE = {p: _NYB for p in ["C%02d" % i for i in range(1, 21)]}
